@@ -595,13 +595,15 @@ def check_writer(ctx, rep):
         if isinstance(n, ast.While) and isinstance(n.test, ast.Name):
             stack_name = n.test.id
     pushes = [p for p in pushes if p.func.value.id == stack_name]
-    opens = [n for n in own_nodes(W.node) if isinstance(n, ast.Call) and isinstance(n.func, ast.Attribute)
-             and n.func.attr == "append" and n.args and isinstance(n.args[0], ast.Constant) and n.args[0].value == "("]
-    closes = [n for n in own_nodes(W.node) if isinstance(n, ast.Call) and isinstance(n.func, ast.Attribute)
-              and n.func.attr == "append" and n.args and isinstance(n.args[0], ast.Constant) and n.args[0].value == ")"]
+    # an emission of a literal is any call that passes it (list.append or a local emit helper)
+    opens = [n for n in own_nodes(W.node) if isinstance(n, ast.Call) and n.args and isinstance(n.args[-1], ast.Constant)
+             and n.args[-1].value == "("]
+    closes = [n for n in own_nodes(W.node) if isinstance(n, ast.Call) and n.args and isinstance(n.args[-1], ast.Constant)
+              and n.args[-1].value == ")"]
     probs = []
     if stack_name is None or len(opens) != 1 or len(closes) != 1 or not pushes:
-        probs.append("writer shape not recognised (stack loop, one '(' site, one ')' site, child push)")
+        raise AnalysisError("SMILES writer shape not recognised (stack loop, one '(' site, one ')' site, child push): "
+                            "cannot decide W1")
     else:
         # condition guarding "("
         open_cond = _guard_of(W.node, opens[0])
@@ -756,16 +758,17 @@ class RingLabelHooks(Hooks):
             s2.add_lin(ge(Lin.var(t), 1))
             s2.epoch += 1
             return [(s2, Num(Lin.var(t)))]
-        if isinstance(callee, tuple) and callee[0] == "method" and callee[1] == "append" and fr.depth == 0 and args:
-            v = args[0]
-            if isinstance(v, Con) and v.value == "%":
-                self.label_appends.append((node, v, st, True))
-            elif isinstance(v, Unk) and isinstance(v.term, tuple) and v.term[0] == "str" and self.label_term is not None \
-                    and any(k == ("num", Lin.var(self.label_term).key()) for k in v.term[1]):
-                # str(label): on which path? '%' path or plain path decided by facts
-                L = Lin.var(self.label_term)
-                if not st.entails(ge(L, 10)):
-                    self.label_appends.append((node, v, st, False))
+        if fr.depth == 0 and args and not (isinstance(callee, tuple) and callee[0] == "method" and callee[1] == "setdefault"):
+            # any call that is handed the literal "%" or str(label) emits it (list.append or an emit helper)
+            for v in args:
+                if isinstance(v, Con) and v.value == "%":
+                    self.label_appends.append((node, v, st, True))
+                elif isinstance(v, Unk) and isinstance(v.term, tuple) and v.term[0] == "str" and self.label_term is not None \
+                        and any(k == ("num", Lin.var(self.label_term).key()) for k in v.term[1]) \
+                        and not (isinstance(callee, tuple) and callee[0] == "ext" and callee[1].endswith("str")):
+                    L = Lin.var(self.label_term)
+                    if not st.entails(ge(L, 10)):
+                        self.label_appends.append((node, v, st, False))
         return None
 
 
